@@ -205,3 +205,31 @@ def count(fx):
                 yield o2
     if n == 0:
         yield ob("R-C09-5", "count#ws#anchors", False, None, None, "no WebTorrent selection obligations found")
+
+
+@PROP.rule("R-C09-6", floor=1, doc="an expectation that has aged out is dropped by the cleaning pass wherever it sits in the map: the pass prunes "
+                                   "expecting_answers with retain(valid(now)) over every entry (answers are consumed with swap_remove, so age order is not position order)")
+def expectations_pruned(fx):
+    from rules.C10 import retain_sites, sym_field_root
+    n = 0
+    bad = []
+    for tr, b, line, recv, cb, callee in retain_sites(fx):
+        root, names = sym_field_root(recv)
+        if tr != "ws" or names[-1:] != ["expecting_answers"]:
+            continue
+        n += 1
+        rets = set()
+        for p in cpaths(fx, cb):
+            if p.end != "return" or p.ret is None:
+                continue
+            r = strip_after(p.ret)
+            rets.add(show(r))
+            if not (r[0] == "call" and r[1].endswith("::ValidUntil::valid") and strip_after(r[2][0])[0] == "p"):
+                bad.append(show(r)[:60])
+        if not rets:
+            bad.append("closure without a return")
+        # the retain must run for every stored peer of the pass: it sits in the per-peer closure of the torrent-level retain
+        if "clean_and_get_num_peers" not in b.short:
+            bad.append("not part of the cleaning pass: %s" % b.short.split("::")[-2:])
+    yield ob("R-C09-6", "expire#ws#expectations_pruned_by_deadline", n == 1 and not bad, None, None,
+             "%d retain over expecting_answers in the cleaning pass, predicate ValidUntil::valid(<entry>, now) on every entry: %s" % (n, bad or "yes"), {"sites": n})
